@@ -169,7 +169,7 @@ def _c04c_cases(tier, seed):
     n = 9 if tier == "quick" else 45
     for i in range(n):
         k = kinds[i % len(kinds)]
-        lineup = [("halton", rnd.randint(2, 3))] + [(k, rnd.randint(1, 3))] + \
+        lineup = [("halton", 3)] + [(k, rnd.randint(1, 3))] + \
             ([(rnd.choice(CHEAP), rnd.randint(1, 2))] if rnd.random() < 0.5 else [])
         yield {"lineup": lineup, "E": rnd.choice([1, 2]), "seed": rnd.randrange(1000), "batches": rnd.randint(0, 3),
                "prior": ["nothing", "same-run", "other-run-longer", "other-run-shorter"][i % 4], "dims": 2}
